@@ -135,13 +135,13 @@ fn t_devs_full(m: &mut Machine) -> Tree {
     let mut v = vec![L(vec![i(0)])];
     match &m.kb {
         Some(bf) => {
-            let q: Vec<u8> = bf.read().unwrap().iter().copied().collect();
+            let q: Vec<u8> = bf.read().unwrap_or_else(|e| e.into_inner()).iter().copied().collect();
             let ie = m.sim.device_handler.io_read(0xFE00, false).map(|x| x & (1 << 14) != 0).unwrap_or(false);
             v.push(L(vec![i(1), bytes(&q), b(ie)]));
         }
         None => v.push(L(vec![i(0)])),
     }
-    match &m.ds { Some(bf) => v.push(L(vec![i(2), bytes(&bf.read().unwrap())])), None => v.push(L(vec![i(0)])) }
+    match &m.ds { Some(bf) => v.push(L(vec![i(2), bytes(&bf.read().unwrap_or_else(|e| e.into_inner()))])), None => v.push(L(vec![i(0)])) }
     for x in &m.extras {
         match x {
             ExtraH::Timer(t) => {
@@ -746,8 +746,8 @@ fn run_reset(ctx: &Ctx) {
         let kb_strong = m.kb.as_ref().map(Arc::strong_count);
         let ds_strong = m.ds.as_ref().map(Arc::strong_count);
         let mcr_val = m.sim.mcr().load(Relaxed);
-        let kb_before: Option<Vec<u8>> = m.kb.as_ref().map(|q| q.read().unwrap().iter().copied().collect());
-        let ds_before: Option<Vec<u8>> = m.ds.as_ref().map(|q| q.read().unwrap().clone());
+        let kb_before: Option<Vec<u8>> = m.kb.as_ref().map(|q| q.read().unwrap_or_else(|e| e.into_inner()).iter().copied().collect());
+        let ds_before: Option<Vec<u8>> = m.ds.as_ref().map(|q| q.read().unwrap_or_else(|e| e.into_inner()).clone());
         let script_before: Vec<Option<usize>> = m.extras.iter().map(|x| match x { ExtraH::Script(q) => Some(q.lock().unwrap().len()), _ => None }).collect();
 
         let q = new_queries(&mut r, k % 16 == 0);
@@ -760,8 +760,8 @@ fn run_reset(ctx: &Ctx) {
         let res = {
             let kbh = m.kb.clone();
             let dsh = m.ds.clone();
-            let _g1 = if kbl { kbh.as_ref().map(|x| x.write().unwrap()) } else { None };
-            let _g2 = if dsl { dsh.as_ref().map(|x| x.write().unwrap()) } else { None };
+            let _g1 = if kbl { kbh.as_ref().map(|x| x.write().unwrap_or_else(|e| e.into_inner())) } else { None };
+            let _g2 = if dsl { dsh.as_ref().map(|x| x.write().unwrap_or_else(|e| e.into_inner())) } else { None };
             let sim = &mut m.sim;
             catch(|| sim.reset())
         };
@@ -802,11 +802,11 @@ fn run_reset(ctx: &Ctx) {
         }
         // devices still dispatch: the display register writes into the same buffer, the keyboard status reads the same queue
         if let Some(bf) = m.ds.clone() {
-            if !dsl && !bf.read().unwrap().is_empty() { ctx.fail("C30", "reset_device_state", "display buffer not cleared by reset".into(), replay.clone()); }
-            if dsl && Some(bf.read().unwrap().clone()) != ds_before { ctx.fail("C30", "reset_device_state", "locked display buffer changed".into(), replay.clone()); }
+            if !dsl && !bf.read().unwrap_or_else(|e| e.into_inner()).is_empty() { ctx.fail("C30", "reset_device_state", "display buffer not cleared by reset".into(), replay.clone()); }
+            if dsl && Some(bf.read().unwrap_or_else(|e| e.into_inner()).clone()) != ds_before { ctx.fail("C30", "reset_device_state", "locked display buffer changed".into(), replay.clone()); }
         }
         if let Some(bf) = m.kb.clone() {
-            let now: Vec<u8> = bf.read().unwrap().iter().copied().collect();
+            let now: Vec<u8> = bf.read().unwrap_or_else(|e| e.into_inner()).iter().copied().collect();
             if !kbl && !now.is_empty() { ctx.fail("C30", "reset_device_state", "keyboard queue not cleared by reset".into(), replay.clone()); }
             if kbl && Some(now) != kb_before { ctx.fail("C30", "reset_device_state", "locked keyboard queue changed".into(), replay.clone()); }
         }
@@ -830,10 +830,10 @@ fn run_reset(ctx: &Ctx) {
         // the devices really are still attached: a write to DDR reaches the buffer, KBSR sees a key
         if let Some(bf) = m.ds.clone() {
             let okw = m.sim.device_handler.io_write(0xFE06, 0x41);
-            if !okw || bf.read().unwrap().last() != Some(&0x41) { ctx.fail("C30", "reset_lost_devices", "after reset a DDR write no longer reaches the display buffer".into(), replay.clone()); }
+            if !okw || bf.read().unwrap_or_else(|e| e.into_inner()).last() != Some(&0x41) { ctx.fail("C30", "reset_lost_devices", "after reset a DDR write no longer reaches the display buffer".into(), replay.clone()); }
         }
         if let Some(bf) = m.kb.clone() {
-            { let mut g = bf.write().unwrap(); g.clear(); g.push_back(0x42); }
+            { let mut g = bf.write().unwrap_or_else(|e| e.into_inner()); g.clear(); g.push_back(0x42); }
             if m.sim.device_handler.io_read(0xFE02, true) != Some(0x42) { ctx.fail("C30", "reset_lost_devices", "after reset KBDR no longer reads the keyboard buffer".into(), replay.clone()); }
         }
     });
@@ -926,7 +926,7 @@ fn run_two_runs(ctx: &Ctx) {
             let d = mem_first_diff(&sa.mem, &sb.mem).map(|(x, p, q)| format!("word {x:#06x}: {p:?} vs {q:?}")).or_else(|| snap_rest_diff(&sa, &sb, true)).unwrap_or_default();
             ctx.fail("C31", "two_runs_differ", format!("final states of two runs from the same seeds differ: {d}"), format!("source\t{}", c.src.replace('\n', "\\n")));
         }
-        if a.ds.as_ref().map(|x| x.read().unwrap().clone()) != b2.ds.as_ref().map(|x| x.read().unwrap().clone()) {
+        if a.ds.as_ref().map(|x| x.read().unwrap_or_else(|e| e.into_inner()).clone()) != b2.ds.as_ref().map(|x| x.read().unwrap_or_else(|e| e.into_inner()).clone()) {
             ctx.fail("C31", "two_runs_differ", "outputs of two runs from the same seeds differ".into(), String::new());
         }
         // the model, started from the described machine and fed with the observed draws, reproduces the history
